@@ -117,6 +117,29 @@ func (r *Runner) BuildExisting() *Obs {
 	return o
 }
 
+// BuildWithContext registers everything and builds with the caller's context.
+func (r *Runner) BuildWithContext(ctx context.Context) *Obs {
+	o := &Obs{Kind: "build", StartSeq: r.W.NextSeq()}
+	undo := r.W.SetOpScope(0)
+	defer undo()
+	guard(o, func() {
+		if err := r.W.RegisterAll(r.Coll, nil); err != nil {
+			o.Err = fmt.Errorf("registration failed: %w", err)
+			o.Kind = "register"
+			return
+		}
+		p, err := r.Coll.BuildWithContext(ctx)
+		o.Err = err
+		if err == nil {
+			r.P = p
+			r.Scopes[0] = &ScopeRec{Tag: 0, Parent: -1, Created: true}
+		}
+	})
+	o.EndSeq = r.W.NextSeq()
+	r.addObs(o)
+	return o
+}
+
 type ctxKeyT struct{ n int }
 
 // SkipTag consumes a scope tag without creating a scope (keeps numbering
